@@ -34,7 +34,8 @@ impl Failure {
     }
     pub fn from_panic(p: PanicRec) -> Failure {
         // a panic raised by harness code itself is a harness error, never a finding
-        let harness = p.frame.is_empty() && !p.location.contains("/repo/") && !p.location.contains("library/");
+        // (cargo passes crate-relative paths for the harness crate itself, absolute ones for the jammdb path dependency)
+        let harness = p.frame.is_empty() && p.location.starts_with("src/");
         Failure {
             kind: if harness { "harness_panic".into() } else { "panic".into() },
             msg: format!("{} @ {}", p.msg, p.location),
